@@ -129,6 +129,8 @@ func main() {
 		os.Exit(runDumpFn(os.Args[2], os.Args[3]))
 	case "replay":
 		os.Exit(runReplay(os.Args[2:]))
+	case "audit-callers":
+		os.Exit(auditCallers())
 	case "sweep-baseline":
 		// maintenance: the functions the zero-annotation sweeps cover on this tree (default contracts),
 		// per property; committed as sweep_baseline.json and never written by a check
